@@ -421,7 +421,7 @@ pub fn run(run: &Run) {
     let subs = subs();
     let get = |n: &str| &*find_sub(&subs, n).unwrap().f;
     run_regressions(run, &subs);
-    let n = run.tier.pick(200_000, 3_000_000);
+    let n = run.tier.pick(200_000, 10_000_000);
     run.random("filters", n, 250, get("filters"));
     run.random("names", n / 2, 30, get("names"));
     run.random("history", n / 2, 120, get("history"));
